@@ -58,6 +58,52 @@ def _job(seeds):
     return out
 
 
+def _job_huge(seeds):
+    """thresholds x samples x classes above 2^24 elements in ONE call (implementations switch algorithms on size):
+    scores on the threshold grid; vectorized vs memory and vs direct counting at a sample of thresholds"""
+    import torcheval.metrics.functional as F
+    out = []
+    for seed in seeds:
+        rng = random.Random(seed)
+        T, C = 1000, rng.choice([6, 8])
+        n = (2 ** 24) // (T * C) + rng.choice([5, 40])
+        D = 64
+        g = torch.Generator().manual_seed(seed)
+        thr = torch.sort(torch.randint(0, D + 1, (T,), generator=g).float() / D).values
+        scores = torch.randint(0, D + 1, (n, C), generator=g).float() / D
+        for kind in ("multilabel", "multiclass"):
+            d = None
+            try:
+                if kind == "multiclass":
+                    tgt = torch.randint(0, C, (n,), generator=g)
+                    onehot = torch.nn.functional.one_hot(tgt, C).bool()
+                    rv = F.multiclass_binned_precision_recall_curve(scores, tgt, num_classes=C, threshold=thr, optimization="vectorized")
+                    rm = F.multiclass_binned_precision_recall_curve(scores, tgt, num_classes=C, threshold=thr, optimization="memory")
+                else:
+                    oh = torch.randint(0, 2, (n, C), generator=g)
+                    onehot = oh.bool()
+                    rv = F.multilabel_binned_precision_recall_curve(scores, oh, num_labels=C, threshold=thr, optimization="vectorized")
+                    rm = F.multilabel_binned_precision_recall_curve(scores, oh, num_labels=C, threshold=thr, optimization="memory")
+                d = close(impl_val([rv[0], rv[1]]), impl_val([rm[0], rm[1]]), 0)
+                if d:
+                    d = "vectorized vs memory: " + d
+                else:
+                    for ti in rng.sample(range(T), 12):
+                        ge = scores >= thr[ti]
+                        tp = (ge & onehot).sum(0).double()
+                        fp = (ge & ~onehot).sum(0).double()
+                        for c in range(C):
+                            if tp[c] + fp[c] > 0 and abs(float(rv[0][c][ti]) - float(tp[c] / (tp[c] + fp[c]))) > 1e-5:
+                                d = f"class {c}, threshold #{ti}: precision differs from tp/(tp+fp) obtained by counting samples scored >= the threshold"
+                                break
+                        if d:
+                            break
+            except Exception as ex:
+                d = f"exception {type(ex).__name__}: {ex}"
+            out.append((kind + "-huge", seed, T, d))
+    return out
+
+
 def _near(rng, thr64):
     """float32 scores sitting on / one float32 ulp below / above the float32 rounding of float64 thresholds"""
     out = []
@@ -138,6 +184,19 @@ def run(ctx):
     for kind, b in sorted(bad2.items()):
         ctx.violation("failing-input", kind, {**b, "broken": f"binned_counts_spec:{kind}"},
                       finding_id=core.match_finding("C06", kind, str(b["observed"])))
+    s3 = ctx.stream("more than 2^24 elements (thresholds x samples x classes) in one call (implementation only)")
+    hseeds = [ctx.rng.randrange(10 ** 9) for _ in range(ctx.n(1, 4))]
+    for (status, val) in sandbox.run_jobs(_job_huge, [[x] for x in hseeds], timeout=ctx.n(300, 900), workers=2):
+        if status != "ok":
+            ctx.violation("failing-input", "C06-huge", {"check": "c06_huge", "observed": f"worker {status}: {val}", "broken": "tie:c06-huge"})
+            continue
+        for kind, seed, T, d in val:
+            s3.case((kind, seed), True, sample={"form": kind, "thresholds": T, "seed": seed})
+            s3.count(kind)
+            if d:
+                ctx.violation("failing-input", kind.replace("-huge", "") + "_binned_precision_recall_curve",
+                              {"check": "c06_huge", "form": kind, "seed": seed, "thresholds": T, "observed": d, "broken": f"binned_modes_agree:{kind}"},
+                              finding_id=core.match_finding("C06", kind, str(d)))
     s = ctx.stream("long threshold lists: both modes vs direct counting (implementation only)")
     seeds = [ctx.rng.randrange(10 ** 9) for _ in range(ctx.n(24, 300))]
     chunks = [seeds[i::6] for i in range(6)]
@@ -158,6 +217,9 @@ def run(ctx):
 
 
 def replay(d):
+    if d.get("check") == "c06_huge":
+        r = [x for x in _job_huge([d["seed"]]) if x[0] == d["form"] and x[3]]
+        return r[0][3] if r else None
     if d.get("check") == "c06_ulp":
         r = [x for x in _job_ulp([d["seed"]]) if x[0] == d["form"] and x[3]]
         return r[0][3] if r else None
